@@ -33,11 +33,12 @@ def execute(cases, timeout=180):
 
 def trace_record(case, res):
     o = case['o']
+    w = abstract.abstract_world(case['world'], o, case['ref'])
     return {
         'id': case['id'],
-        'w': abstract.abstract_world(case['world'], o, case['ref']),
+        'w': w,
         'o': abstract.abstract_opts(o),
-        'ev': abstract.abstract_events(res['events']),
+        'ev': abstract.abstract_events(res['events'], life=w['life']),
         'rep': abstract.abstract_report(res, cli=(case['mode'] == 'cli'),
                                         world=case['world']),
     }
